@@ -1,4 +1,5 @@
 //@host src/io_loop/mod.rs
+//@quick (generic sweep without wall-clock dependence: also runs in the quick tier, labelled bounded)
 // C11 bounded stand-in: every history of up to 6 server-side events on one channel with two consumers A and B, drawn from
 //   deliver(X), server cancel(X) [nowait or not], CancelOk(X) (the answer to a client cancel - the client may send one for a consumer the
 //   server has cancelled already, e.g. from Consumer::drop), and one closing event (client channel close confirmed, server channel close,
